@@ -16,6 +16,7 @@
 #include <gvt/fossil.h>
 #include <log/stats.h>
 #include <mm/msg_allocator.h>
+#include <verif/hooks.h>
 
 static void worker_thread_init(rid_t this_rid)
 {
@@ -41,6 +42,7 @@ static void worker_thread_init(rid_t this_rid)
 static void worker_thread_fini(void)
 {
 	gvt_msg_drain();
+	VERIF_POINT(VP_FINI, 1, 0, 0, 0);
 
 	if(sync_thread_barrier()) {
 		stats_dump();
@@ -50,8 +52,11 @@ static void worker_thread_fini(void)
 		mpi_node_barrier();
 	}
 
+	VERIF_POINT(VP_FINI, 2, 0, 0, 0);
 	lp_fini();
+	VERIF_POINT(VP_FINI, 3, 0, 0, 0);
 	msg_queue_fini();
+	VERIF_POINT(VP_FINI, 4, 0, 0, 0);
 	sync_thread_barrier();
 	msg_allocator_fini();
 }
@@ -69,6 +74,7 @@ static thrd_ret_t THREAD_CALL_CONV parallel_thread_run(void *rid_arg)
 
 		simtime_t current_gvt = gvt_phase_run();
 		if(unlikely(current_gvt != 0.0)) {
+			VERIF_POINT(VP_GVT, VERIF_D(current_gvt), 0, 0, 0);
 			termination_on_gvt(current_gvt);
 			auto_ckpt_on_gvt();
 			fossil_on_gvt(current_gvt);
@@ -77,7 +83,9 @@ static thrd_ret_t THREAD_CALL_CONV parallel_thread_run(void *rid_arg)
 		}
 	}
 
+	VERIF_POINT(VP_LOOP_EXIT, 0, 0, 0, 0);
 	worker_thread_fini();
+	VERIF_POINT(VP_FINI, 9, 0, 0, 0);
 
 	return THREAD_RET_SUCCESS;
 }
